@@ -22,6 +22,7 @@ structure Metric where
   minK : Option Int := none
   maxK : Option Int := none
   lastTs : Option Int := none
+  latestK : Option Int := none   -- ParseFloat key of `latest` (used by the experiment status model)
   deriving Repr, DecidableEq
 
 def unavailable : String := "unavailable"
@@ -41,8 +42,8 @@ def updMinMax (m : Metric) (e : Entry) : Metric :=
 /-- latest part: `timestamp == nil || !timestamp.After(currentTime)`. -/
 def updLatest (m : Metric) (e : Entry) (t : Int) : Metric :=
   match m.lastTs with
-  | some l => if t < l then m else { m with latest := e.text, lastTs := some t }
-  | none => { m with latest := e.text, lastTs := some t }
+  | some l => if t < l then m else { m with latest := e.text, lastTs := some t, latestK := e.key }
+  | none => { m with latest := e.text, lastTs := some t, latestK := e.key }
 
 /-- One loop iteration for the metric record the entry belongs to; `none` = the error return. -/
 def updMetric (m : Metric) (e : Entry) : Option Metric :=
